@@ -26,6 +26,11 @@ def trace_filter(code):
     return code.co_filename.endswith('vm/machine.py') and code.co_name in ('_wait',)
 
 
+def render_num(v):
+    s = ('%.6f' % v).rstrip('0').rstrip('.')
+    return s or '0'
+
+
 def script_for(cfg):
     delays, work, tick, units, tod = cfg
     parts = []
@@ -33,12 +38,12 @@ def script_for(cfg):
         parts.append('units raw')
     items = [('d', d) for d in delays]
     if tod is not None:
-        pos, pattern = tod
+        pos, pattern = tod[0], tod[1]
         items.insert(pos, ('t', pattern))
     for kind, v in items:
         if kind == 'd':
             val = v * 1000 if units == 'raw' else v
-            parts.append('time %s on "a"' % (('%g' % val)))
+            parts.append('time %s on "a"' % render_num(val))
         else:
             parts.append('time at %s on "a"' % v)
     return ' '.join(parts), items
@@ -47,13 +52,15 @@ def script_for(cfg):
 def execute(cfg, chooser, window=400):
     delays, work, tick, units, tod = cfg
     text, items = script_for(cfg)
-    sched = vthreads.Scheduler(chooser, horizon=400.0, max_steps=60000, trace_filter=trace_filter, stall=True)
+    offset = tod[2] if tod is not None and len(tod) > 2 else 0.0
+    sched = vthreads.Scheduler(chooser, horizon=400.0 if not offset else 45.0, max_steps=60000,
+                               trace_filter=trace_filter, stall=True)
     w = world.World(POP, clock='real', overrides={'sleep_time': tick})
     shim = vthreads.ShimThreadingModule(sched, ['clock'] + ['extra%d' % i for i in range(4)])
     shimtime = vthreads.ShimTime(sched)
     clock_mod.threading = shim
     clock_mod.time = shimtime
-    clock_mod.datetime = vthreads.ShimDatetimeClass(sched)
+    clock_mod.datetime = vthreads.ShimDatetimeClass(sched, offset)
     obs = dict(text=text, items=items)
     stalls = [0]
     real_advance = sched._advance_time
@@ -105,9 +112,33 @@ def count_stalls(ch):
     return sum(1 for p in ch.points if p[1] != 0)      # upper bound: every deviation may be a stall
 
 
+def first_match(pattern, offset):
+    """seconds from virtual time 0 until the first minute the pattern matches (0 if the current minute matches);
+    None if that is more than 20 minutes away"""
+    from .c11 import ref_set
+    times = ref_set(pattern)
+    m0 = int(offset // 60)
+    for m in range(m0, m0 + 21):
+        if ((m // 60) % 24, m % 60) in times:
+            return max(0.0, m * 60.0 - offset)
+    return None
+
+
 def judge(cfg, obs, deviations):
     delays, work, tick, units, tod = cfg
     ev = obs['events']
+    offset = tod[2] if tod is not None and len(tod) > 2 else 0.0
+    if tod is not None and offset:
+        starts_in = first_match(tod[1], offset)
+        if starts_in is None:
+            # the awaited minute is almost a day away: within the horizon the wait must still be pending
+            if any(e[2] == 'wait_until-exit' for e in ev):
+                t = next(e[0] for e in ev if e[2] == 'wait_until-exit')
+                return ('time-of-day-wait-fires-at-a-time-the-pattern-does-not-match',
+                        '`time at %s` returned %.1f s after %02d:%02d:%02d' % (
+                            tod[1], t, offset // 3600, offset % 3600 // 60, offset % 60))
+            if obs['verdict'] == 'OVERRUN':
+                return None
     if obs['verdict'] is not None:
         return (obs['verdict'].lower(), 't=%.2f' % obs['now'])
     if obs['errors']:
@@ -159,8 +190,9 @@ def judge(cfg, obs, deviations):
             if k >= len(expected) or expected[k][0] != 't':
                 return ('unexpected-time-of-day-wait', 'event %d' % i)
             pattern = expected[k][1]
-            hh, mm = pattern.split(':')
-            minute_start = (int(hh) * 60 + int(mm)) * 60.0
+            minute_start = first_match(pattern, offset)
+            if minute_start is None:
+                return ('time-of-day-wait-fires-at-a-time-the-pattern-does-not-match', '`time at %s` returned at %.1f' % (pattern, t))
             j = next((x for x in range(i + 1, len(ev)) if ev[x][2] == 'wait_until-exit'), None)
             if j is None:
                 return ('time-of-day-wait-never-ends', pattern)
@@ -185,7 +217,7 @@ def judge(cfg, obs, deviations):
 
 
 def configs(tier):
-    vals = (0, 0.5, 1, 2.5)
+    vals = (0, 0.5, 1, 2.5, 0.0004)       # 0.0004 s: less than a millisecond is still a delay
     out = []
     maxlen = 2 if tier == 'quick' else 3
     for n in range(1, maxlen + 1):
@@ -200,6 +232,11 @@ def configs(tier):
             for pattern in ('0:00', '0:01', '0:02'):
                 for work in (0, 3):
                     out.append((delays, work, 1.0, 'logical', (pos, pattern)))
+    # around an hour boundary: the wall clock shows 08:59:57 when the script starts
+    near = 8 * 3600 + 59 * 60 + 57.0
+    for pattern in ('8:00', '9:00', '8:59', '*:00', '9:*'):
+        for tick in (1.0, 0.3):
+            out.append(((1,), 0, tick, 'logical', (0, pattern, near)))
     return out
 
 
@@ -263,7 +300,7 @@ def run(tier, seed):
         'states': tot_pts, 'transitions': tot_pts,
         'traces_validated_against_impl': tot_exec, 'evaluations': tot_exec,
         'distinct_nontrivial': outcomes,
-        'rule': 'configurations = delay sequences over {0,0.5,1,2.5} (logical and raw ms) x device work {0,0.4,3} x tick {1,0.3} '
+        'rule': 'configurations = delay sequences over {0,0.0004,0.5,1,2.5} (logical and raw ms) x device work {0,0.4,3} x tick {1,0.3} '
                 '+ time-of-day waits before/between/after with the wall clock 0..2 minutes short; per configuration all schedules '
                 'with <= bound deviations (preemption clock/script thread, stall). distinct_nontrivial = distinct vectors of '
                 'delay-return instants observed, summed over configurations',
